@@ -15,11 +15,15 @@ CFG = dict(
                    "pre-repair code refuted (C14_once_v0_refuted, C14_completable_v0_refuted, C14_discard_v0_refuted). Model "
                    "tied to pkg/transaction by differential execution over real objmock + SQLite stores behind "
                    "fault-injecting wrappers (every store call) and SQLite triggers (every statement of SetWithLog), plus an "
-                   "independent Go oracle.",
+                   "independent Go oracle; the COMMANDS `wrgl transaction commit` / `discard` (wrgl.RootCmd() on a real badger + sqlite "
+                   "repository directory) are a second entry point of the same cases with SQL-statement faults at every ref write, the "
+                   "status flip and the deletes of Discard (C14_statement_fault, C14_statement_fault_discard).",
         level_note="partial by design: atomicity of one object-store Set and one SQL transaction, and no other writer between "
                    "the interrupted Commit and its re-run, are assumptions; theorems are about coq/model/Txn.v (hand "
                    "transliteration, content-addressed commits as values); failing READS are covered by the oracle on the "
-                   "implementation and by the model only through 'state = a write prefix' (run_read_fault).",
+                   "implementation and by the model only through 'state = a write prefix' (run_read_fault). D1 (Compose3): tx_log_new reads GetTransactionLogs as the NEWEST entry with the txid; the Go "
+                   "query has no ORDER BY: checked on the real store (hist 4: two entries of the txid on one ref, oracle class "
+                   "txlogs-not-newest), not proved. No transaction-GC case in this slice (C12 owns the gc path).",
         rule="exhaustive: 1 branch x {4 histories x late commit x other transaction}; 2 branches over a 6-profile alphabet "
              "(new/existing/landed-by-earlier-transaction/late/other-tx/bystander; same table on two branches); 3 and 4 "
              "branches random profiles; table-identity patterns (staged table == own head's table / another branch's head table "
@@ -28,7 +32,10 @@ CFG = dict(
              "partially landed transaction; every position of Discard (0..k+1) then re-run; pairs of crashes (n1,n2) then "
              "completion; every store call of any kind incl. reads (mode 2); for every branch as victim, ONE SQL statement inside "
              "SetWithLog failing (reflogs insert / refs upsert, injected by a SQLite trigger below the ref.Store method), alone, "
-             "after a crash, and twice, then re-run. distinct = distinct case text; non-trivial = "
+             "after a crash, and twice, then re-run; the status-flip UPDATE and each DELETE of Discard failing likewise; batch 'relog': "
+             "a ref carrying two reflog entries with the transaction id before Commit; batch 'cli': the commands on a repository "
+             "directory (>= 2 staged branches; quick 2 configurations, thorough ~45) with every SQL-statement fault then re-run "
+             "through the command. distinct = distinct case text; non-trivial = "
              ">=1 staged branch, transaction exists, >=2 ops",
         trusted=["harness/c14.go fault-injecting ref.Store/objects.Store wrappers (fail the chosen call without touching the "
                  "underlying store); commit identity projected to (table id, #transaction prefixes, parent chain); which "
